@@ -15,7 +15,7 @@ from concurrent.futures import ThreadPoolExecutor, ProcessPoolExecutor
 from harness import tlc
 from drivers import urlnorm
 
-FIX = {'FixWinTail': 'FALSE'}
+FIX = {'FixWinTail': 'TRUE'}
 if os.environ.get('VERIF_PATHNAME_FIX'):
     for _k in os.environ['VERIF_PATHNAME_FIX'].split(','):
         if _k:
